@@ -6,6 +6,10 @@ CLAIMS = {
         "text": "Solver-decided equivalence of LogSpecification::enabled / level_sort / max_level and of FlexiLogger::log / ::enabled with the reference 'longest specified module name that is a prefix of the target, else default, else off', for all levels, symbolic module names (<= 3 bytes over {a,b,:}), symbolic targets (<= 4 bytes) and symbolic filters; log() delivery to the primary writer or the user line filter iff the reference enables; enabled() never false for a delivered record incl. brace targets at a writer's ceiling. The regex text filter is outside (crate built without `textfilter`).",
         "note": _N + " HashMap imports are redirected to an association-list model in the build copy (hashbrown is out of CBMC's reach).",
     },
+    "C04": {
+        "text": "Synchronous modes at State level: the real std::io::BufWriter (the buffer of the buffered write modes) runs over a byte-recording sink instead of a File; for two records of symbolic length (below, at, above the capacity) it is decided that after State::flush() returned every accepted byte is in the sink exactly once and in order, and that before that the sink holds a prefix; in direct mode every record is in the sink as soon as write_buffer returned and State::shutdown() adds nothing.",
+        "note": _N + " shutdown() in buffered mode does not terminate (it drops the Result of BufWriter::flush); LoggerHandle/FileLogWriter drop chains, stdout/stderr writers, async and flusher threads are outside. The sink replaces File: kernel-level durability is not modelled.",
+    },
     "C05": {
         "text": "For concrete sequences of 2-3 reconfiguration operations (set / parse / push / parse_and_push / pop, well-formed and malformed strings) with symbolic specifications, the real LoggerHandle is decided against a reference stack: filtering follows the active spec, pop restores the spec before the matching push, a rejected string changes neither the active spec nor the stack, gate >= spec. The parser is replaced by its contract here (decided under C17).",
         "note": _N + " LogSpecification::parse is stubbed by its contract in these harnesses; sequences longer than 3 operations are outside.",
@@ -25,6 +29,10 @@ CLAIMS = {
     "C10": {
         "text": "Absence of panics (slice/str indexing, unwrap, overflow, unwinding assertions as the no-hang check) in FlexiLogger::log / ::enabled for a menu of adversarial targets (unbalanced / empty braces, multi-byte characters next to the braces, separators only, empty) with symbolic specification and level; further entry points are added per harness (see evidence).",
         "note": _N + " Symbolic target bytes did not terminate; the target menu is concrete, everything else symbolic. The lone '{' instance does not terminate on the fixed tree and is not registered.",
+    },
+    "C11": {
+        "text": "Numbers naming, leaf level: every directory state a kill between two file-system effects of a rotation can leave (before the rename, between rename and re-open, after the re-open) is the symbolic start state of index_for_rcurrent for the restarted logger: it returns Ok, and the next rotation number is above every number on disk; a cleanup killed after j removals converges when run again; in direct mode a record is handed to the writer before write_buffer returns (c04_direct_shutdown).",
+        "note": _N + " Compositional: the order of the effects is decided by c01_rotate_numbers_size, the restart by the leaf harnesses; torn writes, timestamp namings, compression and kills at arbitrary instructions are outside; file contents are not modelled.",
     },
     "C12": {
         "text": "Two concurrent set_new_spec calls are decided over all well-nested interleavings (second call before / inside the window between spec update and gate update / after) with symbolic specifications: the final state is one submitted specification as a whole and the gate admits everything it enables. The schedule point is the (stubbed) log::set_max_level; the second call only runs there if the spec lock is free.",
@@ -46,6 +54,10 @@ CLAIMS = {
         "text": "FileSpec::filter_files is executed symbolically on menus of family members and near misses (other suffix, no suffix, longer basename sharing the prefix, missing infix, current-file infix, fragment inside a longer name, multi-byte separator position, missing separator) for three spec shapes and decided against the documented pattern; one open finding (extra dotted part after the infix) is reported as KNOWN-FINDING.",
         "note": _N + " File names are concrete menus (symbolic names did not terminate): only the listed shapes are covered. Consumers (cleanup, numbering) are decided on listings by contract.",
     },
+    "C15": {
+        "text": "Synchronous modes at State level: the byte sequence that reaches the sink for two records of symbolic length is decided equal to one reference stream both for the direct writer and for the real BufWriter after flush - equal to a common reference, hence independent of the write mode; write_buffer hands raw bytes over unchanged and in one piece (c01_write_buffer_glue).",
+        "note": _N + " Async mode (dispatch in a spawned thread) and the io::Write front end of ArcFileLogWriter are outside; rotation is stubbed quiet in these instances.",
+    },
     "C16": {
         "text": "FileSpec::as_pathbuf / fixed_name_part are decided equal to the documented concatenation [basename][_discriminant][_infix][.suffix] for all 2^4 present/absent combinations (incl. empty infix); the listing filter is decided on menus for specs with basename, discriminant only and no name parts.",
         "note": _N + " Start-time part, FileSpec::try_from(path), existing_log_files selectors and the symlink clause are outside.",
@@ -62,9 +74,6 @@ CLAIMS = {
 _REACH = "needs the real BufWriter<File>/OpenOptions/File code over a model of file contents and State as a whole; every attempt ran out of the 12 GB / 15 min budget (virtual Write dispatch to every implementation, unfoldable enum discriminants, recursive error drop glue - DESIGN.md 2 and 5); the mechanisms that could be decided are counted under C01/C19/C20 only"
 NOT_APPLICABLE = {
     "C03": "thread interleavings of N OS threads, crossbeam channel/queue and stdout locks cannot be encoded by Kani/CBMC (no concurrency support); a sequentialised harness would assume the atomicity it is meant to show",
-    "C04": "flush/shutdown/drop leave nothing behind: " + _REACH + "; async and flusher threads additionally need concurrency",
-    "C11": "crash points: " + _REACH,
-    "C15": "write-mode independence: " + _REACH + "; the async half runs in a closure on a spawned thread",
     "C17": "LogSpecification::parse / Display run std split/trim/to_lowercase/format! machinery: with symbolic strings CBMC did not terminate, with concrete strings the solver decides nothing (enumeration of concrete runs is not this technique); TOML form needs serde/toml",
     "C18": "reopen_output / reset_flw: " + _REACH,
 }
